@@ -574,7 +574,8 @@ func (c *compiler) evalInfixExpression(node *ast.InfixExpression) (interface{}, 
 	case bool:
 		return c.boolsOperator(lres, rres, node.Operator)
 	default:
-		if reflect.TypeOf(t).Kind() == reflect.Slice || reflect.TypeOf(t).Kind() == reflect.Array {
+		// only a slice can grow; an array operand gets the "unable to operate" error below
+		if reflect.TypeOf(t).Kind() == reflect.Slice {
 			return c.arrayOperator(lres, rres, node.Operator)
 		}
 	}
